@@ -78,10 +78,11 @@ def models():
                   eqs=[(V("x"), add(mul(Pm("a"), V("x", -1)), Pm("c"), V("e")), None),
                        (V("y"), add(mul(Pm("b"), V("y", 1)), V("x"), Pm("d")), None)],
                   linear_ok=True, flat_ok=[True, False], guesses=[{}, {"x": 5.0, "y": -3.0}], unique=True, swaps=[("x", "c"), ("y", "d")]))
-    M.append(dict(name="unit_root_drift", vars=["x", "y"], log=[], shocks=["e"],
+    M.append(dict(name="unit_root_drift", vars=["x", "y"], mvars=["obs", "obs2"], log=[], shocks=["e"],
                   params=[{"g": 0.5, "a": 0.5}, {"g": -0.2, "a": 0.8}],
                   eqs=[(V("x"), add(V("x", -1), Pm("g"), V("e")), None),
                        (V("y"), add(V("x"), mul(Pm("a"), ("-", V("y", -1), V("x", -1))), num(1.0)), None)],
+                  meqs=[(V("obs"), add(mul(num(2.0), V("x")), num(1.0))), (V("obs2"), add(mul(num(0.5), V("y")), V("x", -1)))],
                   linear_ok=True, flat_ok=[False], guesses=[{}, {"x": 3.0, "y": 4.0}], unique=False, swaps=[]))
     M.append(dict(name="balanced_growth", vars=["a", "h", "y", "c"], log=["a", "h", "y", "c"], shocks=["e"],
                   params=[{"gr": 1.02, "theta": 0.6, "hbar": 0.3, "rho": 0.5}, {"gr": 0.99, "theta": 0.4, "hbar": 1.2, "rho": 0.8}],
